@@ -40,7 +40,12 @@ fn gen_packets(rng: &mut Rng, kind: u16, case: u64) -> Vec<(u8, Vec<[u8; 3]>)> {
             [rng.u8(), rng.u8(), rng.u8()]
         }
     };
-    match case % 6 {
+    match case % 7 {
+        6 => {
+            // hundreds of packets whose skip bytes sum beyond 65535
+            let n = rng.range(257, 320) as usize;
+            (0..n).map(|k| (if k % 2 == 0 { 255u8 } else { rng.range(200, 255) as u8 }, (0..rng.range(1, 2)).map(|_| col(rng)).collect())).collect()
+        }
         0 => {
             // exhaustive 6-bit / 8-bit component table: entry i has components (i, 63-i, i) resp. (i,255-i,i)
             if kind == 0x11 {
@@ -125,7 +130,7 @@ pub fn run(ctx: &Ctx) -> i32 {
                 sp.sprite_ud = None;
                 let pal = sp.palette.clone().unwrap();
                 let kind = if rng.chance(1, 2) { 4u16 } else { 0x11 };
-                let pcase = rng.below(6);
+                let pcase = rng.below(7);
                 let packets = gen_packets(&mut rng, kind, pcase);
                 let legacy = ChunkSpec::OldPalette { kind, packets };
                 let newc = new_palette_chunk(&mut rng, &pal);
